@@ -18,7 +18,15 @@ m=json.load(open('$d/meta.json')); c=re.findall(r'C\d\d', m.get('caught_by',''))
 print(c[0] if c else '$id'[:3])")
     patch=$d/patch.diff; [ -f $d/patch-rebased.diff ] && patch=$d/patch-rebased.diff
     ( cd $wt && git checkout -q -- . && git clean -qfd -e _seed )
-    if ! git -C $wt apply /verif/$patch 2>/dev/null; then echo "$id $prop NOAPPLY"; continue; fi
+    if ! git -C $wt apply /verif/$patch 2>/dev/null; then
+      # the patch predates later fixes in /repo: try a 3-way merge using the blobs named in the patch
+      ( cd $wt && git checkout -q -- . )
+      if ! git -C $wt apply --3way /verif/$patch >/dev/null 2>&1 || git -C $wt diff --name-only --diff-filter=U | grep -q .; then
+        ( cd $wt && git checkout -q -- . && git reset -q )
+        echo "$id $prop NOAPPLY"; continue
+      fi
+      git -C $wt reset -q
+    fi
     if ! ( cd $wt && go build ./... 2>/dev/null ); then echo "$id $prop NOBUILD"; continue; fi
     out=$(cd /verif && VERIF_REPO=$wt timeout 3000 ./check $prop quick 2>&1); ex=$?
     nv=$(echo "$out" | grep -c '^VIOLATION')
